@@ -17,7 +17,10 @@
    A pending transaction is the tuple of facts the code consults:
      ph          the first 8 bytes of its hash as a big-endian integer (bytes.Compare order =
                  integer order; the harness checks that no two pool hashes share these bytes)
-     pfee        fee computed by Blockchain.TransactionFee at the head (None = the fee calculator errors)
+     pfee        fee computed by Blockchain.TransactionFee at the HEAD block's time — not at the
+                 time of the block being created: the filter's burn rule, the sort, the header
+                 fee and arbitration all use head.Time(); `prio`/`txn_lt`, hence created_sorted,
+                 the cut and conflict_choice, are stated for that time (None = the calculator errors)
      psize       encoded size in bytes
      pins        ids of the outputs it spends (harness id table; only equality matters)
      pok_create  VerifySingleTxnSoftHardConstraints(.., CreateBlockVerifyTxn, TxnSigned) = nil at the head
